@@ -73,6 +73,15 @@ type Lemma struct {
 	Line   int
 }
 
+// TableInv: `table SPEC over *T` — the spec function (a representation invariant) is evaluated,
+// as compiled Go, on every package-level instance of T (exhaustive; DESIGN.md §3.9).
+type TableInv struct {
+	Spec  string
+	Type  string
+	Props []string
+	Line  int
+}
+
 type PkgContracts struct {
 	Dir     string // absolute package dir in repo
 	RelDir  string
@@ -81,11 +90,12 @@ type PkgContracts struct {
 	Funcs   []*FuncContract
 	Specs   []string // verbatim Go source of spec funcs (sugar rewritten)
 	Lemmas  []*Lemma
+	Tables  []*TableInv
 	File    string
 	Raw     string
 }
 
-var kwRe = regexp.MustCompile(`^(import|func|property|requires|ensures|modifies|loop|may_panic|trusted|nosafety|timeout|spec|lemma|axiom|panics)\b`)
+var kwRe = regexp.MustCompile(`^(import|func|property|requires|ensures|modifies|loop|may_panic|trusted|nosafety|timeout|spec|lemma|axiom|panics|table)\b`)
 
 func parseContractFile(path string) (*PkgContracts, error) {
 	f, err := os.Open(path)
@@ -98,6 +108,7 @@ func parseContractFile(path string) (*PkgContracts, error) {
 	sc.Buffer(make([]byte, 1<<20), 1<<20)
 	var cur *FuncContract
 	var curLemma *Lemma
+	var curTable *TableInv
 	var last *Clause
 	inSpec := false
 	var spec []string
@@ -144,6 +155,15 @@ func parseContractFile(path string) (*PkgContracts, error) {
 		case "import":
 			pc.Imports = append(pc.Imports, rest)
 			last = nil
+		case "table":
+			f := strings.Fields(rest)
+			if len(f) != 3 || f[1] != "over" {
+				return nil, fmt.Errorf("%s:%d: table SPEC over TYPE", path, ln)
+			}
+			curTable = &TableInv{Spec: f[0], Type: f[2], Line: ln}
+			pc.Tables = append(pc.Tables, curTable)
+			cur, curLemma = nil, nil
+			last = nil
 		case "spec":
 			inSpec = true
 			spec = []string{rest}
@@ -156,7 +176,7 @@ func parseContractFile(path string) (*PkgContracts, error) {
 		case "func":
 			cur = &FuncContract{Key: rest, File: path, Line: ln, PkgDir: pc.Dir,
 				LoopInv: map[int][]*Clause{}, LoopDec: map[int]*Clause{}, LoopMod: map[int][]*Clause{}}
-			curLemma = nil
+			curLemma, curTable = nil, nil
 			if err := parseFuncKey(cur); err != nil {
 				return nil, fmt.Errorf("%s:%d: %v", path, ln, err)
 			}
@@ -175,7 +195,7 @@ func parseContractFile(path string) (*PkgContracts, error) {
 			cl := &Clause{Kind: m, Text: strings.TrimSpace(rest[j+k+1:]), Line: ln, File: path}
 			curLemma = &Lemma{Name: strings.TrimSpace(rest[:i]), Params: rest[i+1 : j], Body: cl, Axiom: m == "axiom", File: path, Line: ln}
 			pc.Lemmas = append(pc.Lemmas, curLemma)
-			cur = nil
+			cur, curTable = nil, nil
 			last = cl
 		case "property":
 			ps := strings.Fields(rest)
@@ -183,6 +203,8 @@ func parseContractFile(path string) (*PkgContracts, error) {
 				cur.Props = append(cur.Props, ps...)
 			} else if curLemma != nil {
 				curLemma.Props = append(curLemma.Props, ps...)
+			} else if curTable != nil {
+				curTable.Props = append(curTable.Props, ps...)
 			}
 			last = nil
 		case "requires", "ensures", "modifies", "panics":
